@@ -508,6 +508,18 @@ fn op_scheme(ctx: &mut Ctx, op: &str, it: &mut std::str::SplitWhitespace) -> Opt
                         verdicts.push(("scheme-shape", "child or modifier count differs from num_splits+1".into()));
                     }
                     ctx.count(&format!("scheme_depth_{}", root.depth()));
+                    if maxiter >= 1 {
+                        // exact integer root: least r with r^maxiter >= parts
+                        let mut r = 1u128;
+                        while r.pow(maxiter as u32) < parts as u128 {
+                            r += 1;
+                        }
+                        ctx.count(if (root.num_splits + 1) as u128 == r {
+                            "scheme_f32_root_is_exact_root"
+                        } else {
+                            "scheme_f32_root_differs_from_exact_root"
+                        });
+                    }
                 }
             }
             format!("ok {}", txt)
